@@ -1,7 +1,7 @@
 (* Elf/ElfProofs.v -- specification of the loaded image (from the property text) and proofs that the
    model of Elf/ElfModel.v meets it; uses the C16 refinement (Mem/BackingProofs.v) for set_memory. *)
 From Coq Require Import ZArith List Bool Lia String.
-From Falcon Require Import Base.Res IL.Const Mem.Backing Mem.BackingSpec Mem.BackingProofs Elf.ElfModel.
+From Falcon Require Import Base.Res IL.Const Mem.Backing Mem.BackingSpec Mem.BackingProofs Mem.BackingShift Elf.ElfModel.
 Import ListNotations.
 Local Open Scope Z_scope.
 
@@ -461,3 +461,27 @@ Proof.
     destruct (exported_once _ _ _ E1 _ _ H) as (s & I0 & N & A & _). left. exists s. auto.
   - destruct (exported_once _ _ _ E2 _ _ H) as (s & I0 & N & A & _). right. exists s. auto.
 Qed.
+
+(* ------------------------------------------------------------------ sections() at base B = sections() at base 0, keys B higher *)
+Lemma load_segs_shift file B phs : forall m0,
+  Forall (seg_wf file B) phs -> Forall (seg_wf file 0) phs -> wf 0 m0 -> wf 0 (kshift B m0) ->
+  exists m, load_segs 0 file phs m0 = Ok m /\ load_segs B file phs (kshift B m0) = Ok (kshift B m).
+Proof.
+  induction phs as [|ph t IH]; intros m0 FB F0 W WB; [exists m0; split; reflexivity|].
+  inversion FB as [|? ? HB FtB]; subst. inversion F0 as [|? ? H0 Ft0]; subst. cbn [load_segs].
+  destruct (Z.eqb_spec (p_type ph) 1) as [T|T]; [|apply IH; assumption].
+  destruct (seg_bytes_spec file B ph T HB) as (bytes & Eb & Lb & _). rewrite Eb. cbn [bind].
+  destruct (HB T) as (O & Fz & FL & FU & FM & V & Bp & E & FLG). destruct (H0 T) as (_ & _ & _ & _ & _ & _ & _ & E0 & _).
+  rewrite !uadd_ok by lia. cbn [bind].
+  destruct (set_memory_shift B m0 (p_vaddr ph + 0) bytes (perms_of_flags (p_flags ph)) W WB) as (m1 & E1 & E1B); try lia.
+  replace (p_vaddr ph + 0 + B) with (p_vaddr ph + B) in E1B by lia. rewrite E1, E1B. cbn [bind].
+  destruct (set_memory_spec m0 (p_vaddr ph + 0) bytes (perms_of_flags (p_flags ph)) W ltac:(lia) ltac:(lia)) as (m1' & E1' & W1 & _).
+  destruct (set_memory_spec (kshift B m0) (p_vaddr ph + B) bytes (perms_of_flags (p_flags ph)) WB ltac:(lia) ltac:(lia)) as (m1b & E1b & W1b & _).
+  rewrite E1 in E1'. inversion E1'; subst m1'. rewrite E1B in E1b. inversion E1b; subst m1b.
+  apply IH; assumption.
+Qed.
+
+Theorem sections_rebase_thm e B :
+  Forall (seg_wf (e_file e) B) (e_phdrs e) -> Forall (seg_wf (e_file e) 0) (e_phdrs e) ->
+  exists m0, memory e 0 = Ok m0 /\ memory e B = Ok (kshift B m0).
+Proof. intros FB F0. apply (load_segs_shift (e_file e) B (e_phdrs e) [] FB F0 I I). Qed.
